@@ -89,46 +89,60 @@ def alignToE (n a : Int) : Except Fail Int :=
 /-- unnamed bit-field: `mem->is_bitfield && !mem->name` -/
 def Mem.unnamedBitfield (m : Mem) : Bool := m.bitWidth.isSome && !m.named
 
+/-- first half of the body of the `for` loop of `struct_decl`: bits ↦ (bits, placement of this member) -/
+def placeMember (packed : Bool) (bits : Int) (m : Mem) : Except Fail (Int × Placed) :=
+  match m.bitWidth with
+  | some w =>
+    if w = 0 then
+      -- bits = align_to(bits, mem->ty->size * 8);
+      match alignToE bits (m.size * 8) with
+      | .ok b => .ok (b, { offset := 0, bitOffset := 0 })
+      | .error e => .error e
+    else if m.size * 8 = 0 then .error .divByZero
+    else
+      -- int sz = mem->ty->size;
+      -- if (bits / (sz * 8) != (bits + mem->bit_width - 1) / (sz * 8)) bits = align_to(bits, sz * 8);
+      let b := if Int.tdiv bits (m.size * 8) ≠ Int.tdiv (bits + w - 1) (m.size * 8) then alignTo bits (m.size * 8) else bits
+      -- mem->offset = align_down(bits / 8, sz); mem->bit_offset = bits % (sz * 8); bits += mem->bit_width;
+      .ok (b + w, { offset := alignDown (Int.tdiv b 8) m.size, bitOffset := Int.tmod b (m.size * 8) })
+  | none =>
+    -- bits = align_to(bits, ty->is_packed ? 8 : mem->align * 8);      ("even in a packed struct a member starts at a byte boundary")
+    -- mem->offset = bits / 8; bits += mem->ty->size * 8;
+    match alignToE bits (if packed then 8 else m.align * 8) with
+    | .ok b => .ok (b + m.size * 8, { offset := Int.tdiv b 8, bitOffset := 0 })
+    | .error e => .error e
+
+/-- second half: `if (mem->is_bitfield && !mem->name) continue;`
+    `if (!ty->is_packed && ty->align < mem->align) ty->align = mem->align;` -/
+def stepAlign (packed : Bool) (align : Int) (m : Mem) : Int :=
+  if m.unnamedBitfield then align else if !packed && align < m.align then m.align else align
+
 /-- body of the `for` loop of `struct_decl`: (bits, ty->align) ↦ (bits, ty->align), placement of this member -/
-def structStep (packed : Bool) (bits align : Int) (m : Mem) : Except Fail (Int × Int × Placed) := do
-  let (bits', pl) ←
-    (match m.bitWidth with
-    | some w =>
-      if w = 0 then do
-        -- bits = align_to(bits, mem->ty->size * 8);
-        let b ← alignToE bits (m.size * 8)
-        pure (b, ({ offset := 0, bitOffset := 0 } : Placed))
-      else do
-        let sz := m.size
-        if sz * 8 = 0 then throw Fail.divByZero
-        -- if (bits / (sz * 8) != (bits + mem->bit_width - 1) / (sz * 8)) bits = align_to(bits, sz * 8);
-        let b := if Int.tdiv bits (sz * 8) ≠ Int.tdiv (bits + w - 1) (sz * 8) then alignTo bits (sz * 8) else bits
-        -- mem->offset = align_down(bits / 8, sz); mem->bit_offset = bits % (sz * 8); bits += mem->bit_width;
-        pure (b + w, { offset := alignDown (Int.tdiv b 8) sz, bitOffset := Int.tmod b (sz * 8) })
-    | none => do
-      -- if (!ty->is_packed) bits = align_to(bits, mem->align * 8);
-      let b ← if !packed then alignToE bits (m.align * 8) else pure bits
-      -- mem->offset = bits / 8; bits += mem->ty->size * 8;
-      pure (b + m.size * 8, { offset := Int.tdiv b 8, bitOffset := 0 }))
-  -- if (mem->is_bitfield && !mem->name) continue;
-  -- if (!ty->is_packed && ty->align < mem->align) ty->align = mem->align;
-  let align' := if m.unnamedBitfield then align else if !packed && align < m.align then m.align else align
-  pure (bits', align', pl)
+def structStep (packed : Bool) (bits align : Int) (m : Mem) : Except Fail (Int × Int × Placed) :=
+  match placeMember packed bits m with
+  | .ok (b, p) => .ok (b, stepAlign packed align m, p)
+  | .error e => .error e
 
 def structLoop (packed : Bool) : Int → Int → List Mem → Except Fail (Int × Int × List Placed)
   | bits, align, [] => .ok (bits, align, [])
-  | bits, align, m :: ms => do
-    let (b, a, p) ← structStep packed bits align m
-    let (b', a', ps) ← structLoop packed b a ms
-    pure (b', a', p :: ps)
+  | bits, align, m :: ms =>
+    match structStep packed bits align m with
+    | .error e => .error e
+    | .ok (b, a, p) =>
+      match structLoop packed b a ms with
+      | .error e => .error e
+      | .ok (b', a', ps) => .ok (b', a', p :: ps)
 
 /-- `struct_decl` after `struct_union_decl`: `align0` is `ty->align` as left by `struct_type()` and
     `attribute_list` (1, or `n` of the last `aligned(n)`) -/
-def structLayout (packed : Bool) (align0 : Int) (ms : List Mem) : Except Fail Layout := do
-  let (bits, align, ps) ← structLoop packed 0 align0 ms
-  -- ty->size = align_to(bits, ty->align * 8) / 8;
-  let s ← alignToE bits (align * 8)
-  pure { size := Int.tdiv s 8, align := align, placed := ps }
+def structLayout (packed : Bool) (align0 : Int) (ms : List Mem) : Except Fail Layout :=
+  match structLoop packed 0 align0 ms with
+  | .error e => .error e
+  | .ok (bits, align, ps) =>
+    -- ty->size = align_to(bits, ty->align * 8) / 8;
+    match alignToE bits (align * 8) with
+    | .error e => .error e
+    | .ok s => .ok { size := Int.tdiv s 8, align := align, placed := ps }
 
 /-- body of the loop of `union_decl`: (ty->size, ty->align) -/
 def unionStep (packed : Bool) (size align : Int) (m : Mem) : Int × Int :=
@@ -141,13 +155,14 @@ def unionStep (packed : Bool) (size align : Int) (m : Mem) : Int × Int :=
 
 def unionLoop (packed : Bool) : Int → Int → List Mem → Int × Int
   | size, align, [] => (size, align)
-  | size, align, m :: ms => let (s, a) := unionStep packed size align m; unionLoop packed s a ms
+  | size, align, m :: ms => unionLoop packed (unionStep packed size align m).1 (unionStep packed size align m).2 ms
 
-def unionLayout (packed : Bool) (align0 : Int) (ms : List Mem) : Except Fail Layout := do
-  let (size, align) := unionLoop packed (STRUCT_INIT_SIZE : Nat) align0 ms
+def unionLayout (packed : Bool) (align0 : Int) (ms : List Mem) : Except Fail Layout :=
+  let r := unionLoop packed (STRUCT_INIT_SIZE : Nat) align0 ms
   -- ty->size = align_to(ty->size, ty->align);
-  let s ← alignToE size align
-  pure { size := s, align := align, placed := ms.map fun _ => { offset := 0, bitOffset := 0 } }
+  match alignToE r.1 r.2 with
+  | .error e => .error e
+  | .ok s => .ok { size := s, align := r.2, placed := ms.map fun _ => { offset := 0, bitOffset := 0 } }
 
 /-! ## types (declarators, struct_members) -/
 
